@@ -58,12 +58,24 @@ where
     let scheme = gets(v, "scheme");
     let sk = lib.sk::<C>(k);
     let pk = sk.public_key();
-    let msg = lib.msg::<C>(&v["msg"]);
-    let sig = match sk.sign(scheme_of(scheme), &msg) {
-        Ok(s) => s,
-        Err(e) => return Outcome::fail(json!({}), format!("sign: {e}")),
-    };
     let pert = gets(v, "pert");
+    let msg = if pert == "pop_as_sig" { enc_k::<C>(&pk.0) } else { lib.msg::<C>(&v["msg"]) };
+    let sig = if pert == "pop_as_sig" {
+        let p = match sk.proof_of_possession() {
+            Ok(p) => p.0,
+            Err(e) => return Outcome::fail(json!({}), format!("pop: {e}")),
+        };
+        match scheme {
+            "Basic" => Signature::<C>::Basic(p),
+            "Aug" => Signature::<C>::MessageAugmentation(p),
+            _ => Signature::<C>::ProofOfPossession(p),
+        }
+    } else {
+        match sk.sign(scheme_of(scheme), &msg) {
+            Ok(s) => s,
+            Err(e) => return Outcome::fail(json!({}), format!("sign: {e}")),
+        }
+    };
     let pk2 = match pert {
         "pk_other" => lib.sk::<C>(geti(v, "k2")).public_key(),
         "pk_neg" => PublicKey::<C>(-pk.0),
@@ -129,6 +141,15 @@ where
                 return Outcome::fail(json!({"res": got, "scheme": scheme, "pert": pert}), format!("spec predicts {want}, ProofOfKnowledge::verify returned {got}"));
             }
             let mut o = Outcome::pass(json!({"res": got}));
+            // the same tuple through the trait-level entry point (BlsSignatureProof::verify with the scheme's tag)
+            {
+                let t = <C as BlsSignatureProof>::verify(u2, v2, pk2.0, y2.0, &msg2, crate::paths::dst::<C>(label2));
+                let tg = if t.is_ok() { "Ok" } else { "Err" };
+                if tg != want {
+                    return Outcome::fail(json!({"path": "trait", "trait": tg, "struct": got, "pert": pert}), format!("spec predicts {want}, the trait-level BlsSignatureProof::verify returned {tg}"));
+                }
+                o.extra += 1;
+            }
             // independent verification of the same tuple: compares the library with the documented equation
             // (for MessageAugmentation the library hashes the plain message; the reference follows the spec table)
             if scheme != "Aug" && label2 != "Aug" {
@@ -181,6 +202,11 @@ where
             let tau = geti(v, "tau");
             blsful::verif_hooks::set_virtual_now_ms(Some(BASE_MS + delay));
             let r = std::panic::catch_unwind(std::panic::AssertUnwindSafe(|| p.verify(pk2, &msg2, if tau < 0 { None } else { Some(tau as u64) })));
+            // the same call through the trait-level entry point, at the same instant
+            let ts2 = p.timestamp;
+            let rt = std::panic::catch_unwind(std::panic::AssertUnwindSafe(|| {
+                <C as BlsSignatureProof>::verify_timestamp_proof(u2, v2, pk2.0, ts2, if tau < 0 { None } else { Some(tau as u64) }, &msg2, crate::paths::dst::<C>(label2))
+            }));
             blsful::verif_hooks::set_virtual_now_ms(None);
             let r = match r {
                 Ok(r) => r,
@@ -195,6 +221,20 @@ where
                 return Outcome::fail(json!({"res": got, "scheme": scheme, "pert": pert, "delay": delay, "tau": tau}), format!("spec predicts {want}, ProofOfKnowledgeTimestamp::verify returned {got}"));
             }
             let mut o = Outcome::pass(json!({"res": got}));
+            match rt {
+                Ok(t) => {
+                    let tg = if t.is_ok() { "Ok" } else { "Err" };
+                    if tg != want {
+                        return Outcome::fail(json!({"path": "trait", "trait": tg, "struct": got, "pert": pert, "delay": delay, "tau": tau}), format!("spec predicts {want}, the trait-level verify_timestamp_proof returned {tg}"));
+                    }
+                    o.extra += 1;
+                }
+                Err(_) => {
+                    let mut o = Outcome::fail(json!({"abort": true, "path": "trait", "pert": pert, "tau": tau}), "trait-level timestamp proof verification aborted (panic)");
+                    o.notes.push("abort".into());
+                    return o;
+                }
+            }
             if pert == "none" && scheme != "Aug" {
                 // the challenge is the documented derivation: the reference recomputes it and verifies
                 let ry = ref_ts_y(&rf, &enc_s::<C>(&u), BASE_MS);
